@@ -351,17 +351,20 @@ impl DrawExecutor {
     }
 
     fn draw_ellipse(&mut self, xm: i32, ym: i32, a: i32, b: i32) {
+        // radii far beyond the canvas only cost time; the error terms need 64 bits
+        let (a, b) = (i64::from(a.clamp(0, 0x7FFF)), i64::from(b.clamp(0, 0x7FFF)));
+        let (xm, ym) = (i64::from(xm.clamp(-0x7FFF, 0x7FFF)), i64::from(ym.clamp(-0x7FFF, 0x7FFF)));
         let mut x = -a;
-        let mut y = 0; /* II. quadrant from bottom left to top right */
+        let mut y = 0i64; /* II. quadrant from bottom left to top right */
         let e2 = b * b;
         let mut err = x * (2 * e2 + x) + e2; /* error of 1.step */
         let color = self.line_color;
 
         while x <= 0 {
-            self.set_pixel(xm - x, ym + y, color); /*   I. Quadrant */
-            self.set_pixel(xm + x, ym + y, color); /*  II. Quadrant */
-            self.set_pixel(xm + x, ym - y, color); /* III. Quadrant */
-            self.set_pixel(xm - x, ym - y, color); /*  IV. Quadrant */
+            self.set_pixel((xm - x) as i32, (ym + y) as i32, color); /*   I. Quadrant */
+            self.set_pixel((xm + x) as i32, (ym + y) as i32, color); /*  II. Quadrant */
+            self.set_pixel((xm + x) as i32, (ym - y) as i32, color); /* III. Quadrant */
+            self.set_pixel((xm - x) as i32, (ym - y) as i32, color); /*  IV. Quadrant */
             let e2 = 2 * err;
             if e2 >= (x * 2 + 1) * b * b {
                 /* e_xy+e_x > 0 */
@@ -378,21 +381,24 @@ impl DrawExecutor {
         while y < b {
             /* too early stop of flat ellipses a=1, */
             y += 1;
-            self.set_pixel(xm, ym + y, color); /* -> finish tip of ellipse */
-            self.set_pixel(xm, ym - y, color);
+            self.set_pixel(xm as i32, (ym + y) as i32, color); /* -> finish tip of ellipse */
+            self.set_pixel(xm as i32, (ym - y) as i32, color);
         }
     }
 
     fn fill_ellipse(&mut self, xm: i32, ym: i32, a: i32, b: i32) {
+        // radii far beyond the canvas only cost time; the error terms need 64 bits
+        let (a, b) = (i64::from(a.clamp(0, 0x7FFF)), i64::from(b.clamp(0, 0x7FFF)));
+        let (xm, ym) = (i64::from(xm.clamp(-0x7FFF, 0x7FFF)), i64::from(ym.clamp(-0x7FFF, 0x7FFF)));
         let mut x = -a;
-        let mut y = 0; /* II. quadrant from bottom left to top right */
+        let mut y = 0i64; /* II. quadrant from bottom left to top right */
         let e2 = b * b;
         let mut err = x * (2 * e2 + x) + e2; /* error of 1.step */
         let color = self.line_color;
 
         while x <= 0 {
-            self.fill_rect(xm - x, ym + y, xm + x, ym + y); /*  II. Quadrant */
-            self.fill_rect(xm + x, ym - y, xm - x, ym - y); /*  IV. Quadrant */
+            self.fill_rect((xm - x) as i32, (ym + y) as i32, (xm + x) as i32, (ym + y) as i32); /*  II. Quadrant */
+            self.fill_rect((xm + x) as i32, (ym - y) as i32, (xm - x) as i32, (ym - y) as i32); /*  IV. Quadrant */
             let e2 = 2 * err;
             if e2 >= (x * 2 + 1) * b * b {
                 /* e_xy+e_x > 0 */
@@ -409,8 +415,8 @@ impl DrawExecutor {
         while y < b {
             /* too early stop of flat ellipses a=1, */
             y += 1;
-            self.set_pixel(xm, ym + y, color); /* -> finish tip of ellipse */
-            self.set_pixel(xm, ym - y, color);
+            self.set_pixel(xm as i32, (ym + y) as i32, color); /* -> finish tip of ellipse */
+            self.set_pixel(xm as i32, (ym - y) as i32, color);
         }
     }
 
